@@ -185,7 +185,52 @@ pub fn run_case(kvs: &[Kv], geom: Geom, sc: Scope) -> Result<u64, String> {
     .and_then(|x| x)
 }
 
+/// Long keys: lower bounds = every key, the key without its last byte, with
+/// one more byte, with the last byte incremented; upper bounds = none or a key.
+pub fn run_ladder_case(kvs: &[Kv]) -> Result<u64, String> {
+    let bytes = front::build(Front::RawInsert, (2, 2), kvs)?;
+    guard(|| {
+        let f = Fst::new(&bytes[..]).map_err(|e| format!("{:?}", e))?;
+        let mut los: Vec<Key> = vec![vec![]];
+        for (k, _) in kvs {
+            los.push(k.clone());
+            los.push(k[..k.len() - 1].to_vec());
+            let mut m = k.clone();
+            m.push(0);
+            los.push(m);
+            let mut m = k.clone();
+            *m.last_mut().unwrap() += 1;
+            los.push(m);
+        }
+        let short = |k: &[u8]| format!("<{} bytes ending {}>", k.len(), key_str(&k[k.len().saturating_sub(3)..]));
+        let mut n = 0u64;
+        for lo in [Lo::Ge, Lo::Gt] {
+            for lok in &los {
+                let mut his: Vec<(Hi, &[u8])> = vec![(Hi::None, b"")];
+                for (k, _) in kvs {
+                    his.push((Hi::Le, k));
+                    his.push((Hi::Lt, k));
+                }
+                for (hi, hik) in his {
+                    let want = expected(kvs, lo, lok, hi, hik);
+                    let got = drain(apply_bounds(f.range(), lo, lok, hi, hik).into_stream())?;
+                    n += 1;
+                    if got != want {
+                        return Err(format!("Fst::range {:?}({}) {:?}({}) gave {} keys, expected {}", lo, short(lok), hi, short(hik), got.len(), want.len()));
+                    }
+                }
+            }
+        }
+        Ok(n)
+    })
+    .and_then(|x| x)
+}
+
 pub fn replay(case: &Value) -> Result<String, String> {
+    if let Some(l) = case["ladder_len"].as_u64() {
+        let kvs = long_keys_of(&[l as usize]).pop().unwrap().1;
+        return run_ladder_case(&kvs).map(|n| format!("{} ranges agree", n));
+    }
     let kvs = kvs_from(&case["kvs"]);
     let geom = geom_from(&case["geom"]);
     if case["gaps"].as_bool() == Some(true) {
@@ -414,6 +459,21 @@ pub fn plan(tier: Tier) -> Plan {
             do_case(&kvs, (2, 2), Scope { full_bounds: false, wrappers: true, repeats: false }, st, rep);
         }
     }));
+    for part in 0..16usize {
+        p.units.push(unit("key-length-ladder-(finite-family)", format!("length ladder part {}", part), move |st, rep| {
+            for (name, kvs) in key_length_ladder(part, 16) {
+                if name.ends_with("set") {
+                    continue;
+                }
+                st.nontrivial += 1;
+                st.states += 1;
+                match run_ladder_case(&kvs) {
+                    Ok(n) => { st.evals += n; st.transitions += n * 4; st.count("length_ladder_ranges", n); }
+                    Err(msg) => rep.violation(format!("length ladder {}", name), msg, json!({"ladder_len": kvs.iter().map(|x| x.0.len()).max().unwrap() - 1})),
+                }
+            }
+        }));
+    }
     let fanouts: Vec<usize> = if thorough { (0..=256).step_by(3).collect() } else { vec![2, 32, 33, 64, 256] };
     for n in fanouts {
         p.units.push(unit("fanout-families", format!("fanout {}", n), move |st, rep| {
